@@ -156,6 +156,25 @@ def oracle_filter(ck, rng):
         for fl in fails:
             ck.violation(what=f"low-pass filter law violated: {fl}", inp=c, key={"site": "filter", "law": fl, "odd_last": sh[2] % 2 == 1},
                          oracle="filter_laws")
+    # double-precision and wide-integer images with a grey level far above their contrast: numpy-level and backend-level filters agree, keep the mean
+    # and stay linear at the precision of the input
+    for dt, off in ((np.float64, 1.0e6), (np.int32, 3_000_000), (np.float64, -2.5e5)):
+        sh = (9, 10, 12)
+        xd = (rng.normal(size=sh) * 3 + off).astype(dt)
+        for cutoff in (0.2, 0.35):
+            ck.oracle_count("wide_dynamic_range", 1, 1)
+            try:
+                a_ = np.asarray(lu(xd, cutoff)); b_ = np.asarray(xp.lowpass_filter(xd, cutoff)); bf_ = np.asarray(xp.lowpass_filter_ft(xd, cutoff))
+                ref_sd = float(np.std(xd.astype(np.float64)))
+                bad = []
+                if np.abs(a_ - b_).max() > 0.05 * ref_sd: bad.append(f"numpy-level and backend-level results differ by {np.abs(a_ - b_).max() / ref_sd:.2g} standard deviations")
+                if abs(float(b_.mean()) - float(xd.astype(np.float64).mean())) > 0.05 * ref_sd: bad.append("the backend-level filter does not preserve the mean")
+                if np.abs(np.fft.ifftn(bf_).real - b_).max() > 0.05 * ref_sd: bad.append("the backend Fourier variant is not the transform of the backend real-space variant")
+            except Exception as e:  # noqa
+                bad = [f"raised {type(e).__name__}: {e}"]
+            for f_ in bad[:2]:
+                ck.violation(what=f"{np.dtype(dt).name} image with grey level {off:g}, cutoff {cutoff}: {f_}", inp={"dtype": np.dtype(dt).name, "offset": off, "cutoff": cutoff, "shape": list(sh)},
+                             key={"site": "wide-range", "dtype": np.dtype(dt).name}, oracle="wide_dynamic_range")
     for cutoff in (0.0, -0.3, 0.5 * np.sqrt(3), 1.0):
         x = rng.normal(size=(5, 6, 7)).astype(np.float32)
         ck.oracle_count("identity_range", 1, 1)
